@@ -931,6 +931,8 @@ def deep_descs(prop, tier):
             out.append(dict(func="active_edges_single_path", n=n, edges=P(n), prim=True, form="vars", deep=True))
         out.append(dict(func="active_edges_single_cycle", n=120, edges=C(120) + [[0, 60]], prim=False, form="vars", deep="sparse"))
         out.append(dict(func="active_edges_single_cycle", n=7, edges=WHEEL6, prim=False, form="vars", deep=True, wheel=True))
+        out.append(dict(func="active_edges_single_cycle", n=7, edges=WHEEL6, prim=True, form="vars", deep=True, wheel=True))
+        out.append(dict(func="active_edges_single_path", n=7, edges=WHEEL6, prim=True, form="vars", deep=True, wheel=True))
         K5 = [[u, v] for u in range(5) for v in range(u + 1, 5)]
         for prim in (False, True):
             out.append(dict(func="active_edges_single_cycle", n=5, edges=K5, prim=prim, form="vars", deep=True, cycles_of_complete_graph=True))
@@ -951,6 +953,11 @@ def deep_descs(prop, tier):
         for g in ((5, 6), (6, 5), (3, 7)) + (((7, 6), (5, 8)) if big else ()):
             out.append(dict(func="division_connected_variable_groups", grid=list(g), size="none", deep=True))
     if prop == "C08":
+        for n in (8, 9, 10, 11):
+            # a vertex of degree n - 1 (7 .. 10): degree thresholds of a per-vertex / per-edge rewrite
+            star = [[0, i] for i in range(1, n)]
+            for func in ("active_vertices_not_adjacent", "active_vertices_not_adjacent_and_not_segmenting"):
+                out.append(dict(func=func, n=n, edges=star, form="vars", deep="sparse"))
         out.append(dict(func="active_vertices_not_adjacent_and_not_segmenting", grid=[8, 13], as_grid=True, form="vars", deep="sparse"))
         out.append(dict(func="active_vertices_not_adjacent", grid=[8, 13], as_grid=True, form="vars", deep="sparse"))
         for g in ((4, 6), (6, 4), (5, 7)) + (((4, 7), (7, 5), (3, 8), (8, 3), (6, 9), (9, 6), (5, 8)) if big else ()):
